@@ -87,7 +87,7 @@ def run_tlc(workdir, module, cfg, spec_dirs=(SPECS,), workers=None, timeout=600,
     meta = os.path.join(workdir, 'states_%s_%d' % (os.path.basename(cfg), os.getpid()))
     shutil.rmtree(meta, ignore_errors=True)
     cmd = ['timeout', '-k', '5', str(int(timeout)),
-           'java', '-XX:+UseParallelGC', '-Xss64m']
+           'java', '-XX:+UseParallelGC', '-Xss512m']
     if java_opts:
         cmd += list(java_opts)
     cmd += ['-cp', '/opt/veriftools/tla/tla2tools.jar:/opt/veriftools/tla/CommunityModules-deps.jar',
